@@ -12,9 +12,10 @@ import time
 import warnings
 
 from .. import flowlib as fl
+from . import _c07readers as rdrs
 from ..engine import REPO, InfraError
 
-MODULES = ["Iodata.Props.C07"]
+MODULES = ["Iodata.Props.C07", "Iodata.Props.C07Readers"]
 RULE = (
     "flow (controlled): the REAL load_one/load_many run against a scripted format module whose parser performs a "
     "scripted sequence of next(lit)/lit.back() calls (also past the end of the file) and then returns or raises any "
@@ -33,13 +34,17 @@ ASSUMPTIONS = [
     "Python semantics of try/except, with, generators (PEP 479, close() -> GeneratorExit) as transcribed in Model/Flow.lean",
     "the file exists and is readable (open does not fail) — the property's domain",
     "callees do not raise GeneratorExit themselves inside load_many (the model uses that class for the user's discard)",
-    "NOT PROVED: termination and outcome classes of the individual format parsers on arbitrary content; this part is "
-    "direct search over mutated corpus files (exploration support), with a per-load wall-clock limit",
+    "NOT PROVED for the formats without a Lean reader (all but those listed in proved_reader_formats): termination and "
+    "outcome classes of the parser on arbitrary content; that part is direct search over mutated corpus files "
+    "(exploration support), with a per-load wall-clock limit",
     "lineno convention: LineIterator increments lineno before reading, so after running into the end of a file with N "
     "lines the reported number is N+1 (the line that could not be read); stated as lineno = #next - #back",
 ]
+RULE = RULE + ". " + rdrs.RULE
+ASSUMPTIONS = ASSUMPTIONS + rdrs.ASSUMPTIONS
 TIME_LIMIT = {"quick": 900, "thorough": 5400}
 PER_LOAD_LIMIT = 90
+FAST_LOAD_LIMIT = 20
 
 EXCS = [e for e in fl.EXC_NAMES if e != "GeneratorExit"]
 
@@ -116,6 +121,7 @@ def correspond(ctx):
     finally:
         shutil.rmtree(work, ignore_errors=True)
     ctx.corr("flow", reqs, outs, nontriv, classes)
+    rdrs.correspond(ctx)
 
 
 # ----------------------------------------------------------------------------------------------------
@@ -219,6 +225,17 @@ def _mutate(lines, kind, a, b, c):
     return out
 
 
+def _limit_for(fname):
+    """per-load wall-clock limit: the small text formats load in milliseconds, the big-basis formats in seconds"""
+    from iodata import api
+
+    try:
+        fmt = api._select_format_module(fname, "load_one").__name__.split(".")[-1]
+    except Exception:  # noqa: BLE001
+        return PER_LOAD_LIMIT
+    return PER_LOAD_LIMIT if fmt in SLOW_FORMATS else FAST_LOAD_LIMIT
+
+
 def _worker(task):
     """Load one mutated file through load_one or load_many; returns a small verdict dict."""
     fname, many, kind, a, b, c, explicit_fmt = task
@@ -261,7 +278,7 @@ def _worker(task):
     gc.collect()
     fd0 = fl.fd_count()
     old = signal.signal(signal.SIGALRM, _alarm)
-    signal.alarm(PER_LOAD_LIMIT)
+    signal.alarm(_limit_for(fname))
     t0 = time.time()
     verdict, detail = "ok", ""
     fmt = None
@@ -386,8 +403,35 @@ def _tasks(ctx):
 
 def search(ctx):
     tasks = _tasks(ctx)
+    fmt_of = {f[0]: f[1] for f in _corpus(ctx)}
+    # a format whose parser was already shown not to terminate by the reader correspondence (reported there with its
+    # replay) is not searched again: every further hanging load would only cost its full time limit
+    hung = {f["sig"].split(":", 1)[1].split(".")[0] for f in ctx.failures if f["sig"].startswith("does-not-terminate:")}
+    if hung:
+        ctx.extra_cov["search_skipped_formats_already_reported_nonterminating"] = sorted(hung)
+        tasks = [t for t in tasks if fmt_of.get(t[0]) not in hung]
+    # probe first: the intact file (load_one, and load_many where it exists) and one truncation per file.  A file whose
+    # probes time out twice would cost its full time limit for every derived input, so its other inputs are skipped
+    # (the time-outs themselves are analysed below: non-terminating parser or slow intact file)
+    probe = []
+    for fname, _fmt, many, _size in _corpus(ctx):
+        if _fmt in hung:
+            continue
+        probe.append((fname, False, "none", 0, 0, 0, True))
+        if many:
+            probe.append((fname, True, "none", 0, 0, 0, True))
+        probe.append((fname, False, "trunc-byte", 10**9 + 7, 0, 0, True))
     with mp.get_context("fork").Pool(min(16, os.cpu_count() or 4), maxtasksperchild=200) as pool:
-        results = pool.map(_worker, tasks, chunksize=8)
+        results = pool.map(_worker, probe, chunksize=2)
+        ntimeout = {}
+        for r in results:
+            if r["verdict"] == "timeout":
+                ntimeout[r["task"][0]] = ntimeout.get(r["task"][0], 0) + 1
+        skipped = sorted(f for f, k in ntimeout.items() if k >= 2)
+        if skipped:
+            ctx.extra_cov["search_files_skipped_after_probe_timeouts"] = skipped
+        tasks = [t for t in tasks if t[0] not in skipped]
+        results.extend(pool.map(_worker, tasks, chunksize=8))
     slow = []
     for r in results:
         v = r["verdict"]
@@ -409,7 +453,7 @@ def search(ctx):
                      f"{fname} ({kind}) through {'load_many' if many else 'load_one'}: {v} {r['detail']}",
                      {"kind": "load", "task": r["task"]})
     ctx.extra_cov["corpus_files"] = len({t[0] for t in tasks})
-    ctx.extra_cov["parser_part_is_exploration_not_proof"] = True
+    ctx.extra_cov["parser_part_is_exploration_for_formats_without_lean_reader"] = True
     if slow:
         # Is it the parser that does not terminate, or the intact file that is slow to load?  Load the intact file
         # (mutation "none") under the same limit and compare.
@@ -418,12 +462,12 @@ def search(ctx):
             t0 = time.time()
             r0 = _worker((t[0], t[1], "none", 0, 0, 0, t[6]))
             dt = time.time() - t0
-            if r0["verdict"] != "timeout" and PER_LOAD_LIMIT > 20 * dt + 10:
+            if r0["verdict"] != "timeout" and _limit_for(t[0]) > 20 * dt + 10:
                 from iodata import api
 
                 fmt = api._select_format_module(t[0], "load_one").__name__.split(".")[-1]
                 ctx.fail(f"does-not-terminate:{fmt}.{'load_many' if t[1] else 'load_one'}",
-                         f"{t[0]} ({t[2]}) did not finish loading within {PER_LOAD_LIMIT}s although the intact file loads "
+                         f"{t[0]} ({t[2]}) did not finish loading within {_limit_for(t[0])}s although the intact file loads "
                          f"in {dt:.2f}s: the parser does not terminate on this content", {"kind": "load", "task": list(t)})
             else:
                 unresolved.append(t)
@@ -433,11 +477,13 @@ def search(ctx):
             ctx.extra_cov["loads_skipped_because_the_intact_file_is_slow"] = [t[0] for t in unresolved]
             for t in unresolved:
                 ctx.hist[f"search-load:{t[2]}/inconclusive-slow-file"] += 1
-
+    rdrs.search(ctx)
 
 
 def replay(ctx, obj):
     inp = obj["input"]
+    if inp.get("kind") in ("rdr", "rctor"):
+        return rdrs.replay(ctx, obj)
     r = _worker(tuple(inp["task"]))
     if r["verdict"] == "timeout":
         return str(obj.get("signature", "")).startswith("does-not-terminate")
